@@ -27,7 +27,10 @@ type DetCase struct {
 	Script string                `json:"script"`
 	Obj    *eng.ObjSpec          `json:"obj,omitempty"`
 	Vars   map[string]lang.Value `json:"vars,omitempty"`
-	Msg    string                `json:"message,omitempty"`
+	// ShareMap: the map field M is also reachable as M2 and twice inside Inner
+	// (one Go map under several keys, as hosts build them; no decoder would).
+	ShareMap bool   `json:"share_map,omitempty"`
+	Msg      string `json:"message,omitempty"`
 }
 
 // observe prepares the script once and runs it three times; the returned
@@ -54,6 +57,12 @@ func observe(c *DetCase, noOpt bool) (string, error) {
 		var obj interface{}
 		if c.Obj != nil {
 			obj = c.Obj.Build()
+		}
+		if mo, ok := obj.(map[string]interface{}); ok && c.ShareMap {
+			if mm, ok := mo["M"].(map[string]interface{}); ok {
+				mo["M2"] = mm
+				mo["Inner"] = map[string]interface{}{"x": mm, "y": mm, "z": 1}
+			}
 		}
 		res := r.Execute(obj)
 		if res.Panic != nil {
@@ -129,9 +138,14 @@ func init() {
 // alike, duplicate keys, and expression keys).
 func drawHashLiteral(rt *rapid.T, depth int) string {
 	n := rapid.IntRange(2, 8).Draw(rt, "npairs")
-	keys := []string{`"a"`, `"b"`, `"c"`, `1`, `"1"`, `1.0`, `2`, `"2"`, `2.5`, `"2.5"`, `(-1)`, `"-1"`, `"a" + "b"`, `1 + 1`, `"k" + string(1)`, `"Name"`, `10`, `"10"`, `9`, `"a\nb"`, `"a\\nb"`, `"t\tx"`, `"t\\tx"`}
+	keys := []string{`"a"`, `"b"`, `"c"`, `1`, `"1"`, `1.0`, `2`, `"2"`, `2.5`, `"2.5"`, `(-1)`, `"-1"`, `"a" + "b"`, `1 + 1`, `"k" + string(1)`, `"Name"`, `10`, `"10"`, `9`, `"a\nb"`, `"a\\nb"`, `"t\tx"`, `"t\\tx"`, `((0 - 1.0) ** 0.5)`, `(- ((0 - 1.0) ** 0.5))`, `(0.0 - 0.0)`, `(- (0.0 * 1))`}
 	vals := []string{`1`, `2`, `"x"`, `"y"`, `true`, `[1, 2]`, `1.5`, `len("abc")`, `"v" + "w"`}
 	var parts []string
+	if gen.Uniform(rt, "nankeys", 8) == 0 {
+		// keys that print alike AND have the same type: NaNs with different
+		// bit patterns, the two zeros
+		parts = append(parts, `((0 - 1.0) ** 0.5): "nan"`, `(- ((0 - 1.0) ** 0.5)): "minus-nan"`, `(0.0 * 1): "zero"`, `(- (0.0 * 1)): "minus-zero"`)
+	}
 	for i := 0; i < n; i++ {
 		k := rapid.SampledFrom(keys).Draw(rt, "key")
 		var v string
@@ -174,6 +188,11 @@ func drawDetCase(rt *rapid.T) (*DetCase, bool) {
 		hv := gen.HashValue(rt, "fieldhash", gen.ValueOpts{Depth: 2, FieldSafe: true})
 		c.Obj = &eng.ObjSpec{Mode: "map", Fields: []eng.Field{{Name: "M", V: hv}, {Name: "N", V: lang.Int(3)}}}
 		b.WriteString("trace(keys(M), string(M));\nforeach k, v in M { trace(k, v); }\n")
+		if rapid.Bool().Draw(rt, "sharemap") {
+			c.ShareMap = true
+			b.WriteString("trace(M, M2, Inner);\ntrace(type(M), type(M2), type(Inner.x), type(Inner.y));\n")
+			nontrivial = true
+		}
 		if rapid.Bool().Draw(rt, "dollarkeys") {
 			// keys that differ only by the legacy $ prefix, and by case
 			c.Obj.Fields = append(c.Obj.Fields, eng.Field{Name: "$N", V: lang.Int(4)}, eng.Field{Name: "n", V: lang.Int(5)}, eng.Field{Name: "$M", V: lang.Str("other")}, eng.Field{Name: "$$N", V: lang.Int(6)})
